@@ -56,6 +56,8 @@ ASSUMPTIONS = [
     'only public API is observed (sym_parent, sym_path, sym_items, sym_get, sym_root)',
     'self-containing values (a root inserted below itself) are not generated',
     'after a violation the forest is replaced by a deep clone and the history continues',
+    'a pg.Ref node is a leaf of the tree that stores it: the value it refers to '
+    'is not a member of that tree and is not judged through the reference',
     'an offered operand that a discarded temporary container (a converted plain '
     'dict/list, a half-built typed pg.Dict/pg.List) adopted and really stores is '
     'not judged further: the caller never saw that container',
